@@ -502,6 +502,75 @@ theorem mapUpdateArgs_hdr (kvs : List (Str × Arg)) : ∀ (n : Node) (next : Nat
     · exact mapSetItem_hdr n k a next
     · exact (ih _ _).trans (mapSetItem_hdr n k a next)
 
+theorem mapUpdatePairs_hdr (kvs : List (Str × Raw)) : ∀ (n : Node) (next : Nat), (mapUpdatePairs n kvs next).node.hdr = n.hdr := by
+  induction kvs with
+  | nil => intro n next; rfl
+  | cons kv rest ih =>
+    intro n next
+    obtain ⟨k, v⟩ := kv
+    rw [mapUpdatePairs]
+    split
+    · exact mapSetItem_hdr n k _ next
+    · exact (ih _ _).trans (mapSetItem_hdr n k _ next)
+
+theorem mapReset_hdr (n : Node) (next : Nat) : (mapReset n next).1.hdr = n.hdr := by
+  unfold mapReset
+  repeat' split
+  all_goals rfl
+
+/-- no call changes identity, stored parent, class or key of the element it is applied to -/
+theorem mapStep_hdr (n : Node) (op : MapOp) (next : Nat) : (mapStep n op next).node.hdr = n.hdr := by
+  unfold mapStep
+  cases op with
+  | setitem k a => exact mapSetItem_hdr n k a next
+  | delitem k => dsimp only; repeat' split
+                 all_goals rfl
+  | pop k => dsimp only; repeat' split
+             all_goals rfl
+  | popitem => dsimp only; split <;> rfl
+  | clear =>
+    dsimp only
+    split
+    · exact mapReset_hdr n next
+    · rfl
+  | update pos kw =>
+    dsimp only
+    split
+    · exact mapUpdatePairs_hdr kw n next
+    · split
+      · rfl
+      · rfl
+      · split
+        · exact mapUpdatePairs_hdr _ n next
+        · exact (mapUpdatePairs_hdr kw _ _).trans (mapUpdatePairs_hdr _ n next)
+  | updateArgs kvs => exact mapUpdateArgs_hdr kvs n next
+  | ior raw =>
+    dsimp only
+    split
+    · rfl
+    · rfl
+    · exact mapUpdatePairs_hdr _ n next
+  | setdefault k d =>
+    dsimp only
+    repeat' (first | split | (dsimp only; split))
+    all_goals rfl
+  | get k => dsimp only; split <;> rfl
+  | set raw pol =>
+    dsimp only
+    split
+    · split <;> exact setNode_hdr _ _ _ _
+    · split <;> exact setNode_hdr _ _ _ _
+    · split <;> exact setNode_hdr _ _ _ _
+  | setDefault => dsimp only; split <;> exact setDefault_hdr _ _
+  | contains k => rfl
+  | len => rfl
+
+theorem nodeStep_hdr (n : Node) (op : Op) (next : Nat) : (nodeStep n op next).node.hdr = n.hdr := by
+  unfold nodeStep
+  cases op with
+  | seq o => cases n.kind <;> first | exact seqStep_hdr n o next | rfl
+  | map o => cases n.kind <;> first | exact mapStep_hdr n o next | rfl
+
 theorem mapUpdateArgs_keeps (kvs : List (Str × Arg)) : ∀ (n : Node) (next : Nat) (x : Node), x ∈ n.kids →
     (∀ p ∈ kvs, p.1 ≠ x.key) → x ∈ (mapUpdateArgs n kvs next).node.kids := by
   induction kvs with
